@@ -25,6 +25,10 @@ type Profile struct {
 	ForceRedaction    int  // 0 = draw, 1 = none, 2 = urns
 	RichLocalization  bool // >=2 translation languages more often
 	FewKnobs          bool // default engine options
+	// OrderSensitive enables constructs whose output could depend on Go map iteration order
+	// (several currencies, several headers/translations evaluated with errors). While goflow
+	// has such dependences they make runs irreproducible, so only the C08 check turns it on.
+	OrderSensitive bool
 }
 
 // Options are the engine/host knobs of a run (F9).
